@@ -180,7 +180,7 @@ func (ex *Exec) oblige(st *State, fr *Frame, kind string, pos token.Pos, src str
 	// post-conditions) are assumed too: they are proved here. Discipline checks
 	// (guarded, lock-*, assigns) do not stop the real program and are not assumed.
 	switch {
-	case strings.HasPrefix(kind, "guarded"), strings.HasPrefix(kind, "lock-nostack"), strings.HasPrefix(kind, "lock-balance"), kind == "assigns", kind == "noblock-under-lock":
+	case strings.HasPrefix(kind, "guarded"), kind == "blocking", strings.HasPrefix(kind, "lock-nostack"), strings.HasPrefix(kind, "lock-balance"), kind == "assigns", kind == "noblock-under-lock":
 	default:
 		ex.vc.Assume(implies(st.guard, goal))
 	}
